@@ -289,10 +289,23 @@ impl Report {
             "violations": unlisted.len(),
             "known_findings_reproduced": listed.len(),
         });
-        let edir = PathBuf::from(VERIF_DIR).join("evidence");
+        // sanitizer stages run a sample of the same check: their result goes to out/sanit, the
+        // minimum-observation thresholds of the full run do not apply to them
+        let sanitizer = std::env::var("VERIF_SANITIZER").ok();
+        let edir = match &sanitizer {
+            Some(_) => PathBuf::from(VERIF_DIR).join("out/sanit"),
+            None => PathBuf::from(VERIF_DIR).join("evidence"),
+        };
         let _ = std::fs::create_dir_all(&edir);
-        let epath = edir.join(format!("{}.json", self.prop));
-        let tmp = edir.join(format!(".{}.json.tmp", self.prop));
+        let fname = match &sanitizer {
+            Some(t) => format!("{}-{}-{}", self.prop, t, crate::pool::stride().1),
+            None => self.prop.clone(),
+        };
+        if sanitizer.is_some() {
+            short.clear();
+        }
+        let epath = edir.join(format!("{fname}.json"));
+        let tmp = edir.join(format!(".{fname}.json.tmp"));
         std::fs::write(&tmp, serde_json::to_string_pretty(&evidence).unwrap()).unwrap();
         std::fs::rename(&tmp, &epath).unwrap();
 
